@@ -80,14 +80,14 @@ def concretise(show, classes, sentinel):
             e = e.replace('K', "'ab'")
             # syntactic positions that are not expressions themselves (innermost first)
             while True:
-                ms = list(re.finditer(r"(KWARG|COMPITER|COMPCOND|LAMDEF|KWLAM)<([^<>]*)>", e))
+                ms = list(re.finditer(r"(kwarg|compiter|compcond|lamdef|kwlam)<([^<>]*)>", e))
                 if not ms:
                     break
                 m0 = ms[-1]
                 inner = m0.group(2)
-                rep = {'KWARG': f"sorted('ab', key={inner})", 'COMPITER': f"['ab' for _ in [{inner}]]",
-                       'COMPCOND': f"['ab' for _ in 'ab' if {inner}]", 'LAMDEF': f"(lambda a={inner}: 'ab')()",
-                       'KWLAM': f"sorted('ab', key=lambda _a: {inner})"}[m0.group(1)]
+                rep = {'kwarg': f"sorted('ab', key={inner})", 'compiter': f"['ab' for _ in [{inner}]]",
+                       'compcond': f"['ab' for _ in 'ab' if {inner}]", 'lamdef': f"(lambda a={inner}: 'ab')()",
+                       'kwlam': f"sorted('ab', key=lambda _a: {inner})"}[m0.group(1)]
                 e = e[:m0.start()] + rep + e[m0.end():]
             # f-string nesting: F{...} -> an f-string whose field is the expression
             while 'F{' in e:
@@ -185,7 +185,7 @@ def run_sandbox_points(case):
             effects = list(_state['events']) + [('call', c) for c in _state['calls']] + ([('file', 'created')] if os.path.exists(sentinel) else [])
             if effects:
                 bad.append({'expr': expr, 'route': 'safe_eval', 'observed': f'effects {effects}', 'allowed': pt['allowed'], 'effect': True})
-            if not pt['allowed'] and safe:
+            if not pt['allowed'] and safe and not pt.get('lenient'):
                 bad.append({'expr': expr, 'route': 'is_eval_safe', 'observed': f'accepted ({got and got[0]})', 'allowed': False,
                             'chosen': chosen})
             if pt['allowed']:
@@ -204,7 +204,8 @@ def run_sandbox_points(case):
                 elif want[0] == 'error' and got[0] == 'value':
                     bad.append({'expr': expr, 'route': 'safe_eval', 'observed': repr(got)[:120], 'expected': repr(want)[:120], 'allowed': True})
             # ---- parser route (constant and alert), every 3rd concretisation
-            if n % 11 == 0 and '`' not in expr and '\n' not in expr:
+            # (always when an AST key shadows a capability: what such a name resolves to depends on how the parser evaluates)
+            if (n % 11 == 0 or 'shadow' in chosen) and '`' not in expr and '\n' not in expr:
                 keyrule = ''.join(f" {k}:/a?b?/" for k in ctxkeys)
                 for form in ('v:`%s`', '^`%s`'):
                     g = f"s ={keyrule} {form % expr} ;"
